@@ -96,7 +96,8 @@ Definition values (m : amap) : list string := map snd m.
 Fixpoint find_free (fuel : nat) (names : list string) (preferred : string) (current : string) (modifier : nat) : string :=
   match fuel with
   | O => current
-  | S f => if mem current names then find_free f names preferred (preferred ++ nat_str modifier) (S modifier) else current
+  | S f => if negb (String.eqb current "") && mem current names   (* conflict(""): dot / anonymous imports and "C" bind no name *)
+           then find_free f names preferred (preferred ++ nat_str modifier) (S modifier) else current
   end.
 
 Definition find_alias (resolved : amap) (names : amap) (path preferred : string) : string * string :=
